@@ -48,6 +48,10 @@ CHECKS["C03"] = ("exploration", "per-call sign monitor: witness-stripped byte eq
   "every SignRawTx result over seeded transactions (1-12 inputs across addresses and classes incl. staking/binding withdrawals and pending parents, six sighash flags, lock times, payloads) is verified input by input by mass-core's script engine with consensus flags; every wrong passphrase of a hostile family must be refused without output or side effect",
   "trusts mass-core's script engine and btcec for signature validity; SINGLE without a matching output not explored", "§5 C03")
 
+CHECKS["C04"] = ("exploration", "metamorphic cross-instance monitor (create / keystore import / mnemonic import / restart under different public passphrases) + independent BIP-39/BIP-32/BIP-44-path derivation of id and addresses + address-pubkey-signature consistency",
+  "wallet id and the address at every issued index must equal an independent derivation from (mnemonic, passphrase) and must be identical in every instance reached by export/import/restore/restart; every listed address must be the witness script hash of its public key and SignHash must produce a signature valid under that key",
+  "trusts harness BIP-39/BIP-32 references (C13/C14 checks), btcec verification; wallets in the C14 known-finding class are checked for cross-instance equality only", "§5 C04")
+
 NOT_APPLICABLE = {}
 
 def main():
